@@ -69,13 +69,19 @@ impl Source for FileSystem {
         let path = self.path_of(DirEntry::File(id, ext));
         match fs::read(&path) {
             Ok(buf) => Ok(super::FileContent::Buffer(buf)),
+            // A directory is not a file: report it as any other missing file
+            Err(err) if path.is_dir() => Err(read_error(not_found(err), path)),
             Err(err) => Err(read_error(err, path)),
         }
     }
 
     fn read_dir(&self, id: &str, f: &mut dyn FnMut(DirEntry)) -> io::Result<()> {
         let dir_path = self.path_of(DirEntry::Directory(id));
-        let entries = fs::read_dir(&dir_path).map_err(|err| read_error(err, dir_path))?;
+        let entries = fs::read_dir(&dir_path).map_err(|err| {
+            // A file is not a directory: report it as any other missing directory
+            let err = if dir_path.is_file() { not_found(err) } else { err };
+            read_error(err, dir_path)
+        })?;
 
         let mut entry_id = id.to_owned();
 
@@ -109,7 +115,11 @@ impl Source for FileSystem {
     }
 
     fn exists(&self, entry: DirEntry) -> bool {
-        self.path_of(entry).exists()
+        let path = self.path_of(entry);
+        match entry {
+            DirEntry::File(..) => path.is_file(),
+            DirEntry::Directory(_) => path.is_dir(),
+        }
     }
 
     fn make_source(&self) -> Option<Box<dyn Source + Send>> {
@@ -130,6 +140,11 @@ impl fmt::Debug for FileSystem {
             .field("root", &self.path)
             .finish()
     }
+}
+
+#[cold]
+fn not_found(err: io::Error) -> io::Error {
+    io::Error::new(io::ErrorKind::NotFound, err)
 }
 
 #[cold]
